@@ -109,6 +109,8 @@ def build_element(spec):
     if 'cls' in spec:
         return getattr(E, spec['cls'])(*spec.get('args', []))
     if 'vec' in spec:
+        if 'dim' in spec:                        # explicit number of components (may differ from the dimension)
+            return E.ElementVector(build_element(spec['vec']), int(spec['dim']))
         return E.ElementVector(build_element(spec['vec']))
     if 'dg' in spec:
         return E.ElementDG(build_element(spec['dg']))
@@ -125,6 +127,8 @@ def label(spec):
         a = spec.get('args', [])
         return spec['cls'] + (f"({','.join(map(str, a))})" if a else '')
     if 'vec' in spec:
+        if 'dim' in spec:
+            return f"Vector({label(spec['vec'])},{spec['dim']})"
         return f"Vector({label(spec['vec'])})"
     if 'dg' in spec:
         return f"DG({label(spec['dg'])})"
@@ -192,8 +196,43 @@ def wrappers(kind):
     return []
 
 
+def extra_wrappers(kind):
+    """Wrappers with non-default parameters and composites with heterogeneous layouts: vector wrappers whose number
+    of components (1..4) differs from the dimension; 3-D composites in which the components owning edge DOFs differ
+    from those owning facet DOFs (both orders); composites of signature-only components."""
+    V = lambda s, d: {'vec': s, 'dim': d}
+    X = lambda *s: {'comp': list(s)}
+    S = lambda n, e, f, i: {'syn': {'kind': kind, 'sig': {'n': n, 'e': e, 'f': f, 'i': i}}}
+    if kind == 'line':
+        return [V(C('ElementLineP2'), 2), V(C('ElementLineP1'), 3), V(C('ElementLineMini'), 4),
+                X(V(C('ElementLineP2'), 2), C('ElementLineP1')), X(S(1, 0, 0, 2), S(2, 0, 0, 0))]
+    if kind == 'tri':
+        return [V(C('ElementTriP1'), 1), V(C('ElementTriP2'), 3), V(C('ElementTriP2'), 1), V(C('ElementTriMini'), 4),
+                V(C('ElementTriCR'), 3), {'dg': V(C('ElementTriP2'), 3)}, X(V(C('ElementTriP2'), 3), C('ElementTriP1')),
+                X(C('ElementTriCR'), C('ElementTriP2')), X(S(1, 0, 2, 0), S(0, 0, 1, 2)), X(S(0, 0, 1, 1), S(2, 0, 0, 0))]
+    if kind == 'quad':
+        return [V(C('ElementQuad1'), 1), V(C('ElementQuad2'), 3), V(C('ElementQuadS2'), 4),
+                X(V(C('ElementQuad2'), 3), C('ElementQuad1')), X(S(1, 0, 2, 0), S(0, 0, 1, 2))]
+    if kind == 'tet':
+        return [V(C('ElementTetP1'), 2), V(C('ElementTetP1'), 1), V(C('ElementTetP2'), 2), V(C('ElementTetP2'), 4),
+                V(C('ElementTetCR'), 2), V(C('ElementTetMini'), 4), {'dg': V(C('ElementTetP2'), 2)},
+                X(C('ElementTetP2'), C('ElementTetCR')), X(C('ElementTetCR'), C('ElementTetP2')),
+                X(C('ElementTetP2'), C('ElementTetCCR')), X(C('ElementTetN1'), C('ElementTetRT0')),
+                X(C('ElementTetRT0'), C('ElementTetN1')), X(C('ElementTetCCR'), C('ElementTetN1')),
+                X(V(C('ElementTetP2'), 2), C('ElementTetRT1')), X(C('ElementTetRT1'), C('ElementTetP2'), C('ElementTetN1')),
+                X(S(1, 1, 0, 0), S(0, 0, 1, 1)), X(S(0, 0, 2, 0), S(1, 2, 0, 0)), X(S(0, 1, 1, 0), S(0, 2, 0, 1), S(1, 0, 1, 0))]
+    if kind == 'hex':
+        return [V(C('ElementHex1'), 2), V(C('ElementHex1'), 1), V(C('ElementHexS2'), 2), V(C('ElementHexRT1'), 2),
+                X(C('ElementHexRT1'), C('ElementHexS2')), X(C('ElementHexS2'), C('ElementHexSkeleton0')),
+                X(C('ElementHex2'), C('ElementHexRT1')), X(V(C('ElementHexS2'), 2), C('ElementHexRT1')),
+                X(S(1, 1, 0, 0), S(0, 0, 1, 1)), X(S(0, 0, 1, 0), S(0, 2, 0, 1))]
+    if kind == 'wedge':
+        return [V(C('ElementWedge1'), 2), V(C('ElementWedge1'), 4), X(S(1, 0, 0, 1), S(0, 0, 1, 0))]
+    return []
+
+
 def catalogue(kind):
-    return exported_classes(kind) + wrappers(kind)
+    return exported_classes(kind) + wrappers(kind) + extra_wrappers(kind)
 
 
 # ---------------------------------------------------------------- meshes from recipes
@@ -352,9 +391,13 @@ def loc_info(mesh, elem, doflocs):
     """Reference locations (rationals over L, an input), vertex coordinates (integers at the mesh scale) and the
     reported global locations: exact integers (times scale * L^deg) or fixed-point limbs (times scale)."""
     kind = kind_of(mesh)
-    if doflocs is None or not hasattr(elem, 'doflocs'):
+    if not hasattr(elem, 'doflocs'):
         return {'mode': 'none'}
+    if doflocs is None:
+        return {'mode': 'missing'}              # the element gives reference locations, the basis built no table
     ref = np.asarray(elem.doflocs, dtype=float)
+    if ref.ndim != 2:
+        ref = ref.reshape((ref.shape[0], -1)) if ref.ndim > 2 else ref.reshape((-1, 1))
     mode, L = _common_den(ref)
     sc = find_scale(mesh.p)
     if mode == 'skip' or sc is None or sc > 64:
@@ -380,14 +423,34 @@ def loc_info(mesh, elem, doflocs):
             if any(l is None for l in limbs):
                 return {'mode': 'inexact'}
             out.append(limbs)
-    return {'mode': mode, 'L': int(L), 'sc': int(sc), 'ref': refl, 'p': pint, 'glob': out}
+    rd = elem.refdom
+    lf = [[int(i) + 1 for i in f] for f in (rd.facets or [])]
+    le = [[int(i) + 1 for i in f] for f in (rd.edges or [])]
+    return {'mode': mode, 'L': int(L), 'sc': int(sc), 'ref': refl, 'p': pint, 'glob': out, 'lf': lf, 'le': le}
 
 
-def number_event(mesh, elem, dofs, doflocs=None, drift=0):
+def composite_decode(elem):
+    """How a composite decodes its local basis functions into (component, index within the component), 1-based, with
+    the signatures of the components.  Not a composite: no components."""
+    if not hasattr(elem, 'elems') or not hasattr(elem, '_deduce_bfun'):
+        return {'sigs': [], 'dec': []}
+    nb = int(sum(int(x) for e in elem.elems for x in e._bfun_counts()))
+    dec = []
+    for i in range(nb):
+        n, ind = elem._deduce_bfun(i)
+        dec.append([int(n) + 1, int(ind) + 1])
+    return {'sigs': [signature(e) for e in elem.elems], 'dec': dec}
+
+
+def number_event(mesh, elem, dofs, doflocs=None, drift=0, with_locs=None):
+    """with_locs: True when the tables come from a basis (its location table is then expected to exist)."""
     ev = {'a': 'Number', 'err': '', 'drift': int(drift), 'sig': signature(elem)}
     ev.update(mesh_tables(mesh))
     ev.update(dof_tables(dofs))
-    ev['loc'] = loc_info(mesh, elem, doflocs) if doflocs is not None else {'mode': 'none'}
+    if with_locs is None:
+        with_locs = doflocs is not None
+    ev['loc'] = loc_info(mesh, elem, doflocs) if with_locs else {'mode': 'none'}
+    ev['dec'] = composite_decode(elem)
     return ev
 
 
@@ -396,7 +459,7 @@ def number_error_event(err, drift=0):
             'kind': 'line', 'nv': 0, 'nf': 0, 'ne': 0, 't': [], 't2f': [], 't2e': [], 'N': 0, 'cell': [],
             'nodal': [], 'edge': [], 'facet': [], 'interior': [],
             'shp': {'cell': [0, 0], 'nodal': [0, 0], 'edge': [0, 0], 'facet': [0, 0], 'interior': [0, 0]},
-            'loc': {'mode': 'none'}}
+            'loc': {'mode': 'none'}, 'dec': {'sigs': [], 'dec': []}}
 
 
 def names_of(elem):
